@@ -100,7 +100,7 @@ def matlab_case(idx, payload):
     rng = random.Random(seed * 1000003 + idx + 500000)
     n = rng.randint(2, 3)
     texts = []
-    endings = ["", "\n", " ", "\n\n", " /* end */", " // end of file\n", "\t"]
+    endings = ["", "\n", " ", "\n\n", " /* end */", " // end of file\n", "\t", " // no newline at the end of the file", " x_"]
     if rng.random() < 0.5:
         # ONE coherent module (typedefs refer to templates declared anywhere in it) cut into files at random
         # top-level split points: typedefs and their templates end up in different files
